@@ -102,6 +102,15 @@ int vd_hooks_main(int argc, char **argv)
             else if (!strcmp(kind, "release")) { size_t j = (size_t)jv_int(jv_at(v, 2)) - 1; if (heldtext[j]) cJSON_free(heldp[j]); else cJSON_Delete((cJSON*)heldp[j]); heldp[j] = NULL; }
             else { fprintf(stderr, "vdrv: unknown hooks action %s\n", kind); return 2; }
             al_in_call = 0;
+            if (strcmp(kind, "InitHooks")) {
+                /* what the property constrains is the ROUTE of every request, given the configuration in force - not which kinds of requests a call makes
+                 * (a call that also releases a block, or also shrinks one with realloc under the default configuration, is drift from the call class, not a violation) */
+                int pu = x_alloc_user, pl = x_alloc_libc, fu = x_free_user, fl = x_free_libc, pr = x_realloc;
+                x_alloc_user = jv_is_str(jv_get(effpre, "alloc"), "user"); x_alloc_libc = !x_alloc_user;
+                x_free_user = jv_is_str(jv_get(effpre, "dealloc"), "user"); x_free_libc = !x_free_user;
+                x_realloc = !jv_is_str(jv_get(effpre, "realloc"), "none");
+                if ((ev_um && !pu) || (al_libc_malloc_calls && !pl) || (ev_uf && !fu) || (al_libc_free_calls && !fl) || (al_libc_realloc_calls && !pr)) VD.drift++;
+            }
             if (!why[0]) {
                 if (ev_um && !x_alloc_user) snprintf(why, sizeof(why), "the user's allocation function was called %ld time(s) although it is not installed", ev_um);
                 else if (al_libc_malloc_calls && !x_alloc_libc) snprintf(why, sizeof(why), "malloc of the C library was called %ld time(s) on the library's behalf while a custom allocation function is installed", al_libc_malloc_calls);
